@@ -79,9 +79,17 @@ func runC19RoundTrip(c C19RoundTripCase) vrt.Verdict {
 		if !reflect.DeepEqual([]string(shared), c.Words) {
 			return vrt.Violationf("%s: the encoder modified the word list it was given: %q became %q (the next name derived from the same words is wrong)", s.name, c.Words, []string(shared))
 		}
+		// a program that tries several conventions on one name (or whose other
+		// components decode the same string differently) calls the other schemes'
+		// decoders first; whatever they answer must not colour this scheme's answer
+		for _, o := range c19Schemes {
+			if o.name != s.name {
+				_, _ = o.dec(enc)
+			}
+		}
 		got, err := s.dec(enc)
 		if err != nil {
-			return vrt.Violationf("%s: decode(encode(%q)=%q) failed: %v", s.name, c.Words, enc, err)
+			return vrt.Violationf("%s: decode(encode(%q)=%q) failed (after the other schemes' decoders had been offered the same string): %v", s.name, c.Words, enc, err)
 		}
 		if !reflect.DeepEqual([]string(got), c.Words) {
 			return vrt.Violationf("%s: decode(encode(%q)=%q) = %q", s.name, c.Words, enc, []string(got))
@@ -100,7 +108,7 @@ func runC19RoundTrip(c C19RoundTripCase) vrt.Verdict {
 func TestC19RoundTrip(t *testing.T) {
 	vrt.Check(t, vrt.Prop[C19RoundTripCase]{
 		ID: "C19", Name: "roundtrip", NoJournal: true,
-		Rule: "word lists of 1..7 words over [a-z][a-z0-9]{0,9} drawn by rapid; for each of the six matched schemes decode(encode(ws)) must equal ws, the same list being handed to every encoder in turn (encoders are functions of their argument and leave it alone); " +
+		Rule: "word lists of 1..7 words over [a-z][a-z0-9]{0,9} drawn by rapid; for each of the six matched schemes decode(encode(ws)) must equal ws, the same list being handed to every encoder in turn (encoders are functions of their argument and leave it alone), and each encoded string being offered to the five OTHER schemes' decoders (verdicts ignored) before its own; " +
 			"non-trivial = at least two words and some word contains a digit or is a single letter; distinct = distinct word lists",
 		Assumptions: []string{"the empty word list is excluded (an identifier has at least one word; every decoder rejects the empty string)"},
 		Gen:         genC19RoundTrip, Run: runC19RoundTrip,
